@@ -524,7 +524,9 @@ func ruleRootLink(id string) func(*Checker) {
 			return
 		}
 		n := 0
-		for _, ci := range callsTo(pack, func(o *types.Func) bool { return isFunc(o, "path/filepath", "Walk") || isFunc(o, "path/filepath", "WalkDir") }) {
+		for _, ci := range callsTo(pack, func(o *types.Func) bool {
+			return isFunc(o, "path/filepath", "Walk") || isFunc(o, "path/filepath", "WalkDir")
+		}) {
 			cl, ok := ci.(*ssa.Call)
 			if !ok {
 				continue
@@ -551,103 +553,103 @@ func ruleRootLink(id string) func(*Checker) {
 			}
 			var judge func(fn *ssa.Function, root ssa.Value, at *ssa.BasicBlock, depth int) (bool, string)
 			judge = func(fn *ssa.Function, root ssa.Value, at *ssa.BasicBlock, depth int) (bool, string) {
-			base := strip(root)
-			// the path was prepared by a private helper: judged at the helper's successful returns
-			if ex, ok := base.(*ssa.Extract); ok && depth < 2 {
-				if hc, ok := ex.Tuple.(*ssa.Call); ok {
-					if h := hc.Common().StaticCallee(); h != nil && p.InModule(h) && len(h.Blocks) > 0 && p.family(pack)[h] {
-						okAll, whyH, n := true, "", 0
-						for _, r := range returnsOf(h) {
-							if !mayReturnNilErr(r) {
-								continue
-							}
-							for _, rv := range returnValues(r, ex.Index) {
-								if rv == nil {
+				base := strip(root)
+				// the path was prepared by a private helper: judged at the helper's successful returns
+				if ex, ok := base.(*ssa.Extract); ok && depth < 2 {
+					if hc, ok := ex.Tuple.(*ssa.Call); ok {
+						if h := hc.Common().StaticCallee(); h != nil && p.InModule(h) && len(h.Blocks) > 0 && p.family(pack)[h] {
+							okAll, whyH, n := true, "", 0
+							for _, r := range returnsOf(h) {
+								if !mayReturnNilErr(r) {
 									continue
 								}
-								n++
-								if ok2, w := judge(h, rv, r.Block(), depth+1); !ok2 {
-									okAll, whyH = false, w
+								for _, rv := range returnValues(r, ex.Index) {
+									if rv == nil {
+										continue
+									}
+									n++
+									if ok2, w := judge(h, rv, r.Block(), depth+1); !ok2 {
+										okAll, whyH = false, w
+									}
 								}
 							}
-						}
-						if n > 0 {
-							return okAll, whyH
+							if n > 0 {
+								return okAll, whyH
+							}
 						}
 					}
 				}
-			}
-			okLink := false
-			why := "no os.Lstat of the walked path with a test for os.ModeSymlink guards the walk"
-			for _, li := range callsTo(fn, func(o *types.Func) bool { return isFunc(o, "os", "Lstat") }) {
-				ls := li.(*ssa.Call)
-				arg := ls.Call.Args[0]
-				if strip(arg) != base && canon(arg) != canon(root) && canon(arg) != base {
-					continue
-				}
-				// cleaned spelling
-				cleaned := false
-				if c2 := callOf(canon(arg)); c2 != nil && (isFunc(calleeObj(c2), "path/filepath", "Clean") || isFunc(calleeObj(c2), "path/filepath", "Abs")) {
-					cleaned = true
-				}
-				if ex, ok := canon(arg).(*ssa.Extract); ok {
-					if c3, ok := ex.Tuple.(*ssa.Call); ok && isFunc(calleeObj(c3), "path/filepath", "Abs") {
+				okLink := false
+				why := "no os.Lstat of the walked path with a test for os.ModeSymlink guards the walk"
+				for _, li := range callsTo(fn, func(o *types.Func) bool { return isFunc(o, "os", "Lstat") }) {
+					ls := li.(*ssa.Call)
+					arg := ls.Call.Args[0]
+					if strip(arg) != base && canon(arg) != canon(root) && canon(arg) != base {
+						continue
+					}
+					// cleaned spelling
+					cleaned := false
+					if c2 := callOf(canon(arg)); c2 != nil && (isFunc(calleeObj(c2), "path/filepath", "Clean") || isFunc(calleeObj(c2), "path/filepath", "Abs")) {
 						cleaned = true
 					}
-				}
-				fi := extractOf(ls, 0)
-				if fi == nil {
-					continue
-				}
-				// mode&ModeSymlink test
-				tE, fE := condEdges(fn, func(v ssa.Value) bool {
-					bo, ok := v.(*ssa.BinOp)
-					if !ok || (bo.Op != token.NEQ && bo.Op != token.EQL) {
-						return false
-					}
-					and, ok := bo.X.(*ssa.BinOp)
-					if !ok || and.Op != token.AND {
-						return false
-					}
-					dep := false
-					for w := range p.backSlice(and, 0) {
-						if w == fi {
-							dep = true
+					if ex, ok := canon(arg).(*ssa.Extract); ok {
+						if c3, ok := ex.Tuple.(*ssa.Call); ok && isFunc(calleeObj(c3), "path/filepath", "Abs") {
+							cleaned = true
 						}
 					}
-					return dep
-				})
-				var notLink []Edge
-				for _, e := range tE {
-					if ifi, ok := e.From.Instrs[len(e.From.Instrs)-1].(*ssa.If); ok {
-						cnd, neg := stripNot(ifi.Cond)
-						if bo, ok := cnd.(*ssa.BinOp); ok && (bo.Op == token.EQL) != neg {
-							notLink = append(notLink, e)
+					fi := extractOf(ls, 0)
+					if fi == nil {
+						continue
+					}
+					// mode&ModeSymlink test
+					tE, fE := condEdges(fn, func(v ssa.Value) bool {
+						bo, ok := v.(*ssa.BinOp)
+						if !ok || (bo.Op != token.NEQ && bo.Op != token.EQL) {
+							return false
+						}
+						and, ok := bo.X.(*ssa.BinOp)
+						if !ok || and.Op != token.AND {
+							return false
+						}
+						dep := false
+						for w := range p.backSlice(and, 0) {
+							if w == fi {
+								dep = true
+							}
+						}
+						return dep
+					})
+					var notLink []Edge
+					for _, e := range tE {
+						if ifi, ok := e.From.Instrs[len(e.From.Instrs)-1].(*ssa.If); ok {
+							cnd, neg := stripNot(ifi.Cond)
+							if bo, ok := cnd.(*ssa.BinOp); ok && (bo.Op == token.EQL) != neg {
+								notLink = append(notLink, e)
+							}
 						}
 					}
-				}
-				for _, e := range fE {
-					if ifi, ok := e.From.Instrs[len(e.From.Instrs)-1].(*ssa.If); ok {
-						cnd, neg := stripNot(ifi.Cond)
-						if bo, ok := cnd.(*ssa.BinOp); ok && (bo.Op == token.NEQ) != neg {
-							notLink = append(notLink, e)
+					for _, e := range fE {
+						if ifi, ok := e.From.Instrs[len(e.From.Instrs)-1].(*ssa.If); ok {
+							cnd, neg := stripNot(ifi.Cond)
+							if bo, ok := cnd.(*ssa.BinOp); ok && (bo.Op == token.NEQ) != neg {
+								notLink = append(notLink, e)
+							}
 						}
 					}
+					if len(notLink) == 0 {
+						continue
+					}
+					if !guarded(at, notLink) {
+						why = "the walk can be reached without passing the not-a-symlink edge of the Lstat of its root (e.g. after following the link once, without looking at what it points to)"
+						continue
+					}
+					if !cleaned {
+						why = "the root is Lstat-ed as it was spelled by the caller: with a trailing separator or \"/.\" Lstat reports on the link's target, the link is not noticed, and filepath.Abs then cleans the spelling back to the link itself"
+						continue
+					}
+					okLink = true
 				}
-				if len(notLink) == 0 {
-					continue
-				}
-				if !guarded(at, notLink) {
-					why = "the walk can be reached without passing the not-a-symlink edge of the Lstat of its root (e.g. after following the link once, without looking at what it points to)"
-					continue
-				}
-				if !cleaned {
-					why = "the root is Lstat-ed as it was spelled by the caller: with a trailing separator or \"/.\" Lstat reports on the link's target, the link is not noticed, and filepath.Abs then cleans the spelling back to the link itself"
-					continue
-				}
-				okLink = true
-			}
-			return okLink, why
+				return okLink, why
 			}
 			okLink, why := judge(pack, cl.Call.Args[0], cl.Block(), 0)
 			c.check(okLink, id, p.FuncName(pack), "walk root is not a symlink", p.Pos(cl.Pos()), "the walked path was Lstat-ed in cleaned form and is past the not-a-symlink edge", why+": filepath.Walk visits a symlink root without descending, so Pack returns an empty slug and a nil error")
